@@ -12,6 +12,12 @@ CHECKS = {
  'C11': dict(level='proof', design='§4 C11',
              text='Bounded proof: for every non-identity insertion order of N<=3 (thorough 4) keyframes at symbolic distinct positions the timeline built by the real builder is compared with the one built in increasing order: structurally identical built values (boundary_times, time scale, every sub-timeline) discharge the obligation; otherwise both are evaluated symbolically at a symbolic time and the solver decides equality of update and metadata.',
              technique='symbolic execution of rustc MIR + structural equality / SMT (z3)'),
+ 'C13': dict(level='proof', design='§4 C13',
+             text='The real MIR of <Easing as EasingFunction>::calc (30-arm dispatch), every lazy_static initialiser, CubicBezierEasing::{new,calc}, LinearEasing::calc and lyon_geom CubicBezierSegment::y is executed with symbolic x. Endpoint laws, Linear identity and Custom delegation are bit-precise f32 obligations; range, monotonicity, In/Out and InOut mirror identities and agreement with the published control points are exact real-arithmetic (NRA) obligations over the polynomial extracted from the executed code, for all real x in [0,1]. The literal definition clause (timing function at horizontal position x) is decided too and is a recorded known finding.',
+             technique='symbolic execution of rustc MIR + SMT (QF_FP for endpoints, QF_NRA for curve shape)'),
+ 'C14': dict(level='proof', design='§4 C14',
+             text='The real MIR of all eleven primitive Lerp impls (f32, f64, nine integer types incl. the as-f32 casts, f32::round and num-traits from_f32 models, expect) is executed with symbolic a, b, x; endpoint laws for every value exactly representable in f32 (all 2^64 pairs for the wide types), range/no-panic and identity over all a, b of the 8-bit types (16-bit and wider: identity; range in thorough) with x on the stated grid (quick) or all x in [0,1] (thorough); one-ulp bound for f32 identity. Counterexamples are replayed natively in dev and release.',
+             technique='symbolic execution of rustc MIR + SMT (cvc5/z3 portfolio, QF_FPBV)'),
  'C03': dict(level='proof', design='§4 C03',
              text='Bounded proof: every clause of the property is an SMT obligation over the symbolic execution of the real MIR of TimeScale::{new,get_position,get_duration,get_delay,get_cycle_duration,get_repeat}; all finite f32 t/delay/duration (quick: low 12 mantissa bits zero), every repeat variant and u32 count, both build profiles; sat answers are replayed natively before being reported.',
              technique='symbolic execution of rustc MIR + SMT (cvc5/z3 portfolio), QF_FPBV'),
